@@ -29,6 +29,7 @@ type C12Case struct {
 	SignMode string          `json:"sign_mode"` // none | valid | rogue | rogue-registered-cert | edited | empty-value
 	DestKind string          `json:"dest_kind"`
 	Soap     string          `json:"soap_prefix"`
+	Noise    bool            `json:"noise,omitempty"`
 }
 
 func genC12Case(t *rapid.T) C12Case {
@@ -115,6 +116,7 @@ func genC12Case(t *rapid.T) C12Case {
 	}
 	q.DestPrefixed = c.DestKind != "absent" && rapid.IntRange(0, 3).Draw(t, "destprefixed") == 0
 	c.Query = q
+	c.Noise = rapid.IntRange(0, 2).Draw(t, "noise") == 0
 	c.SignMode = rapid.SampledFrom([]string{"none", "none", "none", "none", "none", "none", "none", "valid", "rogue", "rogue-registered-cert", "edited", "empty-value", "rogue-no-keyinfo", "edited-no-keyinfo"}).Draw(t, "signmode")
 	return c
 }
@@ -179,10 +181,20 @@ type c12Outcome struct {
 func c12Run(c C12Case) c12Outcome {
 	var out c12Outcome
 	add := func(key, f string, a ...any) { out.vs = append(out.vs, ev.V("C12/"+key, f, a...)) }
-	w := mustBuild(c.Spec)
+	wspec := c.Spec
+	if c.Noise {
+		wspec = withNoise(wspec)
+	}
+	w := mustBuild(wspec)
+	if c.Noise {
+		runNoise(w, wspec)
+	}
 	now := time.Now()
 	hr := c12Render(c, now)
 	rep := obs.Do(w.Handler, hr)
+	if c.Noise && noiseLeak(rep) {
+		add("foreign-state-in-reply", "the reply carries data of an unrelated service provider / user that used the provider earlier")
+	}
 	out.status = rep.Status
 	if rep.Panic != "" {
 		add("panic", "handler panicked: %s", short(rep.Panic, 100))
